@@ -4,6 +4,9 @@
 import JrsVerif.Proofs.Manif
 import JrsVerif.Proofs.ManifStream
 import JrsVerif.Proofs.ManifDom
+import JrsVerif.Proofs.ManifToml
+import JrsVerif.Proofs.ManifTomlLex
+import JrsVerif.Proofs.ManifYaml11
 
 namespace JrsVerif.Props.C14
 open JrsVerif.Manif JrsVerif.ManifSpec JrsVerif.Generated.Manif JrsVerif.ManifProofs JrsVerif.ManifVal
@@ -241,6 +244,87 @@ theorem bareSafe_sound_basic (s : List Char) (h : bareSafe s = true) :
 
 example : bareSafe "a-b.c/d_9".toList = true := by decide
 example : bareSafe "Yes".toList = false := by decide
+
+/-- Full strength against the YAML 1.1 implicit-type resolver as PyYAML implements it
+    (`Model/ManifYaml11.lean`: bool, int incl. sign / `_` / `0b` / `0x` / leading-zero octal /
+    sexagesimal, float incl. `.inf` / `.nan` / sexagesimal, timestamp, merge `<<`, value `=`, null
+    `~`): a key or CLI string value that `bare_safe` leaves unquoted is resolved to a string, and
+    as a plain scalar it contains no indicator, blank or comment start and is no document marker. -/
+theorem bareSafe_sound (s : List Char) (h : bareSafe s = true) :
+    ManifYaml11.resolvesToString s = true ∧ ManifYaml11.plainSyntaxOk s = true :=
+  ManifYaml11Proofs.bareSafe_sound s h
+
+example : bareSafe "0o17".toList = true ∧ ManifYaml11.resolvesToString "0o17".toList = true := by decide
+example : bareSafe "0xA".toList = false ∧ ManifYaml11.isInt "0xA".toList = true := by decide
+
+/-- The same statement against the letter of yaml.org/type/float.html, whose base-10 expression
+    `[-+]?([0-9][0-9_]*)?\.[0-9.]*([eE][-+][0-9]+)?` allows any number of dots. -/
+def BareSafeRepoStmt : Prop :=
+  ∀ s : List Char, bareSafe s = true → ManifYaml11.resolvesToStringRepo s = true
+
+/-- `1.2.3` is left unquoted and matches that expression.  (PyYAML, libyaml and the YAML 1.2 core
+    schema all read `1.2.3` as a string, so no reader observes a difference; recorded, not flagged.) -/
+theorem bareSafe_repo_counterexample : ¬ BareSafeRepoStmt := by
+  intro h
+  have := h "1.2.3".toList (by decide)
+  revert this
+  decide
+
+/-- With at most one dot — the bound `bare_safe` itself uses — the type-repository variant holds too. -/
+theorem bareSafe_repo_partial (s : List Char) (h : bareSafe s = true) (hdots : count s '.' ≤ 1) :
+    ManifYaml11.resolvesToStringRepo s = true ∧ ManifYaml11.plainSyntaxOk s = true :=
+  ManifYaml11Proofs.bareSafe_sound_repo s h hdots
+
+example : bareSafe "a.b".toList = true ∧ count "a.b".toList '.' ≤ 1 := by decide
+
+/-! ## TOML documents: the section structure denotes the value -/
+
+open JrsVerif.ManifDoc JrsVerif.ManifTomlR JrsVerif.ManifTomlProofs in
+/-- For every object whose tables have distinct keys (at every level), for both settings of
+    `skip_empty_sections`: the lines the table writers start (`ManifDoc.items`: key/value lines,
+    `[table]` and `[[array of tables]]` headers, in the order written), given the meaning TOML
+    gives to such lines (`ManifTomlR.build`: a header opens or creates the table at its path, through
+    the last element of an array of tables; a key or table is defined once; inline values are
+    closed), build exactly the source value with the members of each table in written order
+    (non-sections first).  Every table must therefore be announced by at least one line — an empty
+    table by its own header: leaving out `!obj.is_empty()` in the guard of `manifest_table` breaks
+    this theorem. -/
+theorem toml_sections_rebuild (skip : Bool) (kvs : List (List Char × V)) (hw : inlineOk (.obj kvs) = true) :
+    build ((items skip kvs).map stmtOf) = some (.obj (layoutP kvs ++ layoutS kvs)) :=
+  build_items skip kvs hw
+
+/-- The statement reader of the TOML reference reader, on a key as `escape_key_toml_buf` writes it
+    followed by any text that does not continue a bare key (` = value`, `.`, `]`): the key is read
+    back and exactly that text is left. -/
+theorem toml_key_read_prefix (k rest : List Char) (hr : ∀ c, rest.head? = some c → tomlBareChar c = false) :
+    ManifTomlR.readKey (Manif.tomlKey k ++ rest) = some (k, rest) :=
+  ManifTomlLex.readKey_tomlKey toml_unit bareAllowed_sound k rest hr
+
+/-- A `[a.b]` / `[[a.b]]` header line exactly as manifest_table / manifest_table_array write it
+    (keys joined by `.`, each bare or quoted), followed by the rest of the document, is read by the
+    reference reader as that header statement with that path. -/
+theorem toml_header_line_read (path : List (List Char)) (hne : path ≠ []) (rest : List Char) :
+    ManifTomlR.readStmt path.length ('[' :: (ManifDoc.joinPath path ++ ']' :: rest)) = some (.hdr false path, rest) ∧
+    ManifTomlR.readStmt path.length ('[' :: '[' :: (ManifDoc.joinPath path ++ ']' :: ']' :: rest))
+      = some (.hdr true path, rest) :=
+  ManifTomlLex.readStmt_header toml_unit bareAllowed_sound path hne path.length (Nat.le_refl _) rest
+
+example : ManifDoc.joinPath ["a".toList, "b-1".toList] = "a.b-1".toList := by decide
+
+open JrsVerif.ManifDoc JrsVerif.ManifTomlProofs in
+/-- `layoutP ++ layoutS` only reorders the members of a table. -/
+theorem toml_layout_same_members (kvs : List (List Char × V)) :
+    (layoutP kvs ++ layoutS kvs).Perm (kvs.map (fun kv => (kv.1, if isSection kv.2 then layoutV kv.2 else kv.2))) :=
+  layout_perm kvs
+
+open JrsVerif.ManifDoc JrsVerif.ManifTomlR JrsVerif.ManifTomlProofs in
+example : inlineOk (.obj [("a".toList, .obj []), ("b".toList, .arr [.obj [], .obj [("c".toList, .obj [("d".toList, .num "1".toList)])]])]) = true := by
+  decide
+
+open JrsVerif.ManifDoc in
+/-- the CLI format (`skip_empty_sections`) on `{a: {}, b: {c: {}}}`: `[a]` and `[b.c]`, no `[b]` -/
+example : tomlDoc ⟨"  ".toList, true⟩ (.obj [("a".toList, .obj []), ("b".toList, .obj [("c".toList, .obj [])])])
+    = some "[a]\n\n[b.c]".toList := by decide
 
 /-! ## YAML stream framing -/
 
